@@ -461,6 +461,10 @@ def straightline(repo, spec):
             sym[ast.unparse(st.target)] = sl_expr(ast.BinOp(left=st.target, op=st.op, right=st.value), sym)
         elif isinstance(st, ast.Return) and st.value is None:
             break
+        elif isinstance(st, ast.If) and not st.orelse and len(st.body) == 1 and isinstance(st.body[0], ast.Raise):
+            # a validation guard (`if <cond>: raise ...`): the translated function is the update on accepted input
+            src.append(f"[guard: if {' '.join(ast.unparse(st.test).split())[:80]}: raise]")
+            continue
         else:
             raise Untranslatable(f"statement {type(st).__name__} at line {st.lineno}")
         src.append(" ".join(ast.unparse(st).split()))
